@@ -7,7 +7,13 @@ import os, sys
 sys.path.insert(0, "lib")
 import vlib
 c = vlib.Ctx("setup", "quick", 1)
+bad = []
 for prog in sorted(os.listdir("harness/cmd")):
-    print(c.build(False, prog))
-    print(c.build(True, prog))
+    for race in (False, True):
+        try:
+            print(c.build(race, prog))
+        except vlib.Machinery as e:
+            print("setup: build of %s (race=%s) failed: %s" % (prog, race, str(e)[:2000]))
+            bad.append(prog)
+sys.exit(1 if "verifdrv" in bad else 0)
 PY
